@@ -1,6 +1,8 @@
 SPECIFICATION GSpecSim
 CONSTANTS NB = 3
           NID = 2
+          Wide = FALSE
           MaxBatch = 3
           D = 1000
           E = 30
+INVARIANTS EmitUniverse
